@@ -105,6 +105,7 @@ def dfa_minimize(D: DFA) -> DFA:
     F = D.F
     q = list(Q)
     n = len(q)
+    if _verif.ON: q = _verif.ordered('tf.order', q)
     if _verif.ON: _verif.emit('tf.order', order=list(q))
 
     table: MutableMapping[Tuple[int, int], bool] = {}
@@ -142,6 +143,7 @@ def dfa_from_table(D: DFA, table: Mapping[Tuple[int, int], bool]) -> DFA:
     F = D.F
     q = list(Q)
     n = len(q)
+    if _verif.ON: q = _verif.ordered('tf.order', q)
 
     Q_: List[Set[State]] = [set([]) for _ in range(n)]
     R: Set[State] = set([])
